@@ -1239,7 +1239,7 @@ fn check_entries_after(case: &ImageCase, ctx: &mut CaseCtx<'_>) -> Result<(), St
         let got = run_with_wal("intact image")?;
         let exp: Vec<Vec<u8>> = all.iter().map(|e| e.data.clone()).collect();
         if got != exp {
-            return Err(format!("recover_with_wal over an empty object store returned {} deltas, the WAL holds {}", got.len(), exp.len()));
+            return Err(format!("recover_with_wal over an empty object store returned {} deltas, the WAL holds {} (same count = order or content differs from append order)", got.len(), exp.len()));
         }
         for m in 0..img.files.len().min(6) {
             let f = &img.files[m];
